@@ -389,6 +389,21 @@ func c04Judge(seed *c04Seed, after *pkgmodel.Pkg, hist []int, nOK int) []rep.Vio
 				}
 			}
 			desc := fmt.Sprintf("%s: Id=%s Type=…/%s Target=%s TargetMode=%q", rn, r.ID, st, r.Target, r.Mode)
+			// an id that another relationship of the same part carries as well is no longer this relationship's id
+			nb, na := 0, 0
+			for _, x := range before.Rels[rn] {
+				if x.ID == r.ID {
+					nb++
+				}
+			}
+			for _, x := range ar {
+				if x.ID == r.ID {
+					na++
+				}
+			}
+			if na > nb && nb == 1 {
+				add("rel-id-reused|"+owner+"|"+st, "b", fmt.Sprintf("%s: after save %d relationships of %s carry the id %s", desc, na, rn, r.ID))
+			}
 			switch {
 			case byWhat != nil && byWhat.ID != r.ID:
 				// the same relationship exists under another id (whatever now carries the old id is a new relationship)
